@@ -92,7 +92,7 @@ struct Built
   bool has_atten = false;
   bool exact_unit = true;         // every member multiplies with exactly 1 (trivial, or components all exactly 1)
   double tol_ref = TOL_EXACT_REF; // tolerance for e vs reference
-  shared_ptr<DataSymmetriesForViewSegmentNumbers> proj_symmetries; // of an attenuation member (grouping it demands)
+  std::vector<shared_ptr<ForwardProjectorByBin>> projectors; // of the attenuation members (they dictate the grouping)
   std::string label;
 };
 
@@ -198,16 +198,7 @@ build(const json& s, Env& env, const Flags& fl)
       b.label = cat("atten:", s["mode"].get<std::string>());
       // the projector refuses RelatedViewgrams that are not grouped by ITS symmetries (ForwardProjectorByBin::forward_project:
       // "incorrect related_viewgrams. Problem with symmetries!"), so the grouping is taken from the projector after set_up
-      struct Hook
-      {
-        shared_ptr<ForwardProjectorByBin> fwd;
-      };
-      b.proj_symmetries.reset(); // filled after set_up by the caller through find_atten()
-      b.norm->set_exam_info_sptr(env.exam);
-      // keep the projector reachable
-      static std::map<const BinNormalisation*, shared_ptr<ForwardProjectorByBin>> dummy;
-      (void)dummy;
-      projector_of()[b.norm.get()] = fwd;
+      b.projectors.push_back(fwd);
     }
   else if (k == "components")
     {
@@ -345,6 +336,7 @@ build(const json& s, Env& env, const Flags& fl)
             }
           b.geb = b.geb && p.geb;
           b.has_atten = b.has_atten || p.has_atten;
+          b.projectors.insert(b.projectors.end(), p.projectors.begin(), p.projectors.end());
           b.exact_unit = b.exact_unit && p.exact_unit;
           b.tol_ref += p.tol_ref;
           b.label += p.label + " ";
@@ -356,4 +348,3 @@ build(const json& s, Env& env, const Flags& fl)
   return b;
 }
 
-} // namespace
